@@ -24,6 +24,7 @@ var c *common.Ctx
 
 const header = `From Coq Require Import List NArith String.
 From Coq Require Import Strings.Byte.
+From GoBT Require Import model.Tx spec.FeeSpec model.Fees corr.FeeCorr.
 From GoBT Require Import lib.Bytes lib.Hex lib.Str model.Address corr.C15.
 Import ListNotations. Local Open Scope N_scope. Local Open Scope string_scope.
 `
@@ -192,6 +193,9 @@ func observeWith(s string, v func(site, what string)) (o obs) {
 				v("NewAddressFromString/address-string-changed", abbreviate(a.AddressString))
 			}
 		}
+		if err != nil && a != nil && a.PublicKeyHash != "" {
+			v("NewAddressFromString/hash-returned-with-error", a.PublicKeyHash)
+		}
 	}); p {
 		v("NewAddressFromString/panic", msg)
 	}
@@ -199,6 +203,10 @@ func observeWith(s string, v func(site, what string)) (o obs) {
 		sc, err := bscript.NewP2PKHFromAddress(s)
 		if err == nil && sc != nil {
 			o.scriptOK, o.script, o.sc = true, append([]byte{}, (*sc)...), sc
+		}
+		if err != nil && sc != nil && len(*sc) > 0 {
+			// a refusal hands nothing out: a script that comes back together with the error is a script built from the string
+			v("NewP2PKHFromAddress/script-returned-with-error", fmt.Sprintf("%x", []byte(*sc)))
 		}
 	}); p {
 		v("NewP2PKHFromAddress/panic", msg)
@@ -907,6 +915,9 @@ func main() {
 	// 4b. long strings: lengths and counts beyond 2^8 and 2^16 (long.go)
 	longStrings(r, base, th)
 
+	// 4c. the transaction methods on transactions in every state, and along histories on one object (txstate.go)
+	txStateCases(r, base, th)
+
 	// 5. scripts: mutations of the canonical template, other push encodings of the hash, truncations
 	h := hashes[6]
 	can := p2pkh(h)
@@ -944,7 +955,7 @@ func main() {
 
 	c.Stats.Extra["violation_counts_by_site"] = perSite
 	c.Stats.Extra["derived_addresses"] = len(derived)
-	c.Stats.Rule = "go-bk base58: byte lists (0..3 leading zeros, length 0..40) and alphabet strings incl. invalid characters. Hashes: boundary (all-zero, all-ff, 1..3 leading zero bytes) + seeded random 20-byte hashes x 2 networks; keys: seeded secp256k1 keys x 2 networks (HASH160 recomputed in Gallina); key/hash byte strings of other lengths. Strings: 6 base addresses (mainnet, two leading '1's, both testnet prefixes, burn address) with EVERY single-character substitution (57 x length; model side: all for the first address, 3 per position for the others; thorough: all), all adjacent transpositions, all deletions, insertions at every position ('1' and a random character; all 58 at first/second/last position), a non-Base58 character at every position, the payload plus k*2^200 for eight k (26-byte values whose low 25 bytes are valid), six non-ASCII look-alikes at every position (code points U+0100/U+0400/U+4E00 + the character, the character with the top bit set, a combining accent), whitespace/case variants, leading-'1' insertion/deletion; re-encoded payloads with altered checksum (bit flip, random, checksum without version, single SHA-256), wrong version bytes {05,c4,01,6e,70,80,ef,ff} with right checksum, payload lengths 24/26 and others with right checksum, long/short/empty strings, bitcoin-script texts. Long strings (long.go; written as expressions, the model receives srep terms): n x '1' before each base address for n around 2^8 k and 2^16 (25..258, 511..513, 768, 1024, 4096, 16384, 65535..65537, 65792; thorough: up to 262144), after it and in its middle (256, 512, 65536); text of 256 / 512 / 65536 characters (a random Base58 word repeated, blanks, NUL bytes, the address itself cut to size) after and before the address; the address repeated 3, 4, 8, 16, 257 times and the first count whose total length is the address's own modulo 256, with separators (NUL, comma, newline, blank, semicolon); the payload plus m*2^200 with m chosen so that the string has the address's length + 256 / + 65536 or exactly 256 / 512 characters; payloads whose decoded length is 25 + 256 / 512 / 65536 with a supported first byte (valid 25 bytes then zero / random bytes, Base58Check of the wrong length, padding between version and hash); nothing but 25 + 2^8 k / 2^16 and neighbouring numbers of '1'; bodies of 36..65536 characters (one character, a random word, with leading '1's, an invalid character last). Strings of 2^16 characters: one address per family in quick, all in thorough; model side: every run of '1' up to 65537, bodies up to 300 characters. The acceptors answer for eight long strings at a time; a string none of them comes back from within the patience is reported. Every string goes through ValidateAddress, NewAddressFromString, NewP2PKHFromAddress, PayToAddress, AddP2PKHOutputFromAddress (a sample through ChangeToAddress). Scripts: canonical template, every truncation, byte substitutions at the template positions, PUSHDATA1/2/4 encodings, hostile lengths, random bytes through PublicKeyHash/IsP2PKH/Addresses. Every hash constructor is called again after the owner of its earlier result edited that result; all hashes are derived, validated and turned into scripts again by 8 goroutines at once and compared with the specification. distinct = distinct input (string / bytes / hash+network); non-trivial = strings of at least 20 characters, 20-byte hashes, real keys, scripts longer than 2 bytes, non-empty codec inputs"
+	c.Stats.Rule = "go-bk base58: byte lists (0..3 leading zeros, length 0..40) and alphabet strings incl. invalid characters. Hashes: boundary (all-zero, all-ff, 1..3 leading zero bytes) + seeded random 20-byte hashes x 2 networks; keys: seeded secp256k1 keys x 2 networks (HASH160 recomputed in Gallina); key/hash byte strings of other lengths. Strings: 6 base addresses (mainnet, two leading '1's, both testnet prefixes, burn address) with EVERY single-character substitution (57 x length; model side: all for the first address, 3 per position for the others; thorough: all), all adjacent transpositions, all deletions, insertions at every position ('1' and a random character; all 58 at first/second/last position), a non-Base58 character at every position, the payload plus k*2^200 for eight k (26-byte values whose low 25 bytes are valid), six non-ASCII look-alikes at every position (code points U+0100/U+0400/U+4E00 + the character, the character with the top bit set, a combining accent), whitespace/case variants, leading-'1' insertion/deletion; re-encoded payloads with altered checksum (bit flip, random, checksum without version, single SHA-256), wrong version bytes {05,c4,01,6e,70,80,ef,ff} with right checksum, payload lengths 24/26 and others with right checksum, long/short/empty strings, bitcoin-script texts. Long strings (long.go; written as expressions, the model receives srep terms): n x '1' before each base address for n around 2^8 k and 2^16 (25..258, 511..513, 768, 1024, 4096, 16384, 65535..65537, 65792; thorough: up to 262144), after it and in its middle (256, 512, 65536); text of 256 / 512 / 65536 characters (a random Base58 word repeated, blanks, NUL bytes, the address itself cut to size) after and before the address; the address repeated 3, 4, 8, 16, 257 times and the first count whose total length is the address's own modulo 256, with separators (NUL, comma, newline, blank, semicolon); the payload plus m*2^200 with m chosen so that the string has the address's length + 256 / + 65536 or exactly 256 / 512 characters; payloads whose decoded length is 25 + 256 / 512 / 65536 with a supported first byte (valid 25 bytes then zero / random bytes, Base58Check of the wrong length, padding between version and hash); nothing but 25 + 2^8 k / 2^16 and neighbouring numbers of '1'; bodies of 36..65536 characters (one character, a random word, with leading '1's, an invalid character last). Strings of 2^16 characters: one address per family in quick, all in thorough; model side: every run of '1' up to 65537, bodies up to 300 characters. The acceptors answer for eight long strings at a time; a string none of them comes back from within the patience is reported. Every string goes through ValidateAddress, NewAddressFromString, NewP2PKHFromAddress, PayToAddress, AddP2PKHOutputFromAddress (a sample through ChangeToAddress). Transaction methods on transactions in every state (txstate.go): PayToAddress, AddP2PKHOutputFromAddress and ChangeToAddress with 19 strings (three accepted addresses, two with a wrong checksum only, a character outside the alphabet / a deletion / an insertion at a position drawn per run, first character gone, unsupported version and 24 / 26 bytes with a right checksum, empty, text, trailing blank, leading '1', the address twice, a BIP276 text, a NUL, 256 x '1' before the address; thorough: the edits on 43 addresses) on: bt.NewTx() still empty, a version-2 transaction with a lock time and nothing else, an input and no output, an output and no input, inputs = outputs in five shapes (1/1, 2/3, amounts of 0, an input of 0 and no output, a data output), inputs below the outputs by 1 and by 2^40, an input whose previous script is missing, inputs above the outputs by 1, 2, fee/2, fee - 1 .. fee + 3 (no change / dust / smallest change), 10 fee + 1000, 10^8 where fee is what the quote asks for the transaction with the change output; each under the default quote, a free one, 50 sat/byte, a quote without the standard rate and no quote object (thorough: the nine standard quotes too); amounts paid 0, 1, 546, 1000, 2^63, 2^64 - 1 and exactly what the inputs leave over. Every call is judged against NewP2PKHFromAddress (refused there: refused here and the transaction reads as before; accepted there: one more output with the canonical script, resp. exactly what Tx.Change with that script does on a twin) and against the model (CTxOp: about a sixth of the calls in quick, one in twenty in thorough). Histories: 12 (thorough 400) transaction objects from bt.NewTx() through 5..9 steps drawn from From / PayToAddress / AddP2PKHOutputFromAddress / a payment of exactly what is left / ChangeToAddress / a call with a refused string, probed after every step with three refused strings through the three methods on the same object. Scripts: canonical template, every truncation, byte substitutions at the template positions, PUSHDATA1/2/4 encodings, hostile lengths, random bytes through PublicKeyHash/IsP2PKH/Addresses. Every hash constructor is called again after the owner of its earlier result edited that result; all hashes are derived, validated and turned into scripts again by 8 goroutines at once and compared with the specification. distinct = distinct input (string / bytes / hash+network); non-trivial = strings of at least 20 characters, 20-byte hashes, real keys, scripts longer than 2 bytes, non-empty codec inputs"
 	concurrentDerivation(hashes, pick(6, 40))
 	checkRetained()
 	c.Finish()
